@@ -345,6 +345,13 @@ func init() {
 			}
 			return Value{}, true
 		},
+		// the base58 text of the multihash of an abstract identifier: an injective constructor, like the other texts
+		"(github.com/multiformats/go-multihash.Multihash).B58String": func(in *Interp, fr *Frame, a []Value) (Value, bool) {
+			if t, ok := opaqueOfBytes(a[0]); ok {
+				return opqStr(ot("mhb58", t)), true
+			}
+			return declined()
+		},
 		// ---- cid ----
 		"(github.com/ipfs/go-cid.Cid).String": func(in *Interp, fr *Frame, a []Value) (Value, bool) {
 			at, ok := cidAtom(a[0])
